@@ -57,27 +57,34 @@ LETTERS = "xyz"
 
 
 def _middle_angle_is_bounded(ctx, prog) -> bool:
-    """re-derive from the vendored source: in euler_from_matrix's
-    non-repetition branch the middle angle ay = atan2(-M[k,i], cy) with
-    cy = sqrt(...)  =>  range [-pi/2, pi/2]"""
+    """re-derive from the vendored source: for the axes convention project()
+    uses, the middle angle euler_from_matrix returns is, on every path,
+    +-atan2(x, c) with c a square root (c >= 0)  =>  range [-pi/2, pi/2].
+    The convention table lookup is folded for the constant convention name
+    (which then cannot raise the exceptions its fallback handles)."""
     f = prog.func("evo.core.transformations.euler_from_matrix")
-    import ast
-    ok = False
-    for n in ast.walk(f.node):
-        if isinstance(n, ast.Assign) and isinstance(n.value, ast.Call) and \
-                ast.unparse(n.value.func).endswith("atan2") and \
-                len(n.value.args) == 2 and \
-                isinstance(n.value.args[1], ast.Name) and \
-                n.value.args[1].id == "cy":
-            tgt = ast.unparse(n.targets[0])
-            if tgt == "ay":
-                ok = True
-    cy_sqrt = any(
-        isinstance(n, ast.Assign) and ast.unparse(n.targets[0]) == "cy" and
-        isinstance(n.value, ast.Call) and
-        ast.unparse(n.value.func).endswith("sqrt")
-        for n in ast.walk(f.node))
-    return ok and cy_sqrt
+    from ..known_functions import KNOWN_FUNCTIONS
+    r = Interp(prog, assume=lambda t: False if t.op == "exc" else None,
+               inline=lambda fn: fn.module is f.module and
+               fn.qualname not in KNOWN_FUNCTIONS).run(
+        f, {f.params[1]: const("sxyz")})
+    alts = [r.ret]
+    for _ in range(6):
+        alts = [b for a in alts for b in tm.strip_ite(a)]
+    if not alts or not all(a.op == "tuple" and len(a.args) == 3
+                           for a in alts):
+        return False
+    mids = [m for a in alts for m in tm.strip_ite(a.args[1])]
+
+    def bounded(m: T) -> bool:
+        if m.op == "unop" and m.args[0] == "USub":
+            return bounded(m.args[1])
+        if is_call_to(m, "math.atan2", "numpy.arctan2") and \
+                len(m.args[1]) == 2:
+            return is_call_to(Interp.unname(m.args[1][1]), "math.sqrt",
+                              "numpy.sqrt")
+        return False
+    return bool(mids) and all(bounded(m) for m in mids)
 
 
 ALLOWED_STATE = ("_poses_se3", "_positions_xyz", "_orientations_quat_wxyz",
@@ -145,8 +152,8 @@ def check(ctx):
     ctx.require(planes is not None and len(planes) >= 3,
                 "Plane enum vanished")
     bounded = _middle_angle_is_bounded(ctx, prog)
-    ctx.require(bounded, "vendored euler_from_matrix no longer has the "
-                "ay = atan2(., cy=sqrt(.)) shape; middle-angle range fact "
+    ctx.require(bounded, "vendored euler_from_matrix: the middle angle is "
+                "no longer +-atan2(., sqrt(.)) on every path; its range fact "
                 "cannot be re-derived")
     planec = prog.cls(PLANE)
     import ast
